@@ -8,6 +8,7 @@ import pandas as pd
 from mc.canon import digest, spec_state
 from mc.explorer import Skip
 from mc.runner import Sub
+from props.common import dense
 
 from formulaic import model_matrix
 
@@ -55,13 +56,6 @@ def training_sets(quick):
         return [(0, 1, 2, 4), (0, 2, 3, 4), (0, 0, 2, 4), (1, 2, 4, 4)]
     return out
 
-
-def dense(m):
-    if hasattr(m, "toarray"):
-        return np.asarray(m.toarray(), dtype=float)
-    if isinstance(m, pd.DataFrame):
-        return m.to_numpy(dtype=float)
-    return np.asarray(m, dtype=float)
 
 
 def domain_rows(train_idx, formula):
